@@ -284,14 +284,15 @@ def gen_lexicon(rng, lmfver, lexid, lexver, profile=None, base=None, language=No
     ss_members = {sid: [] for sid in ss_ids}
     formctr = [0]
 
-    def new_form():
+    def new_form(children=True):
         f = {'writtenForm': r.choice(formp)}
         formctr[0] += 1
         if lmfver != '1.0' and g.opt(0.4):
             f['id'] = f'{pre}f{formctr[0]}'
         if g.opt(0.25):
             f['script'] = r.choice(['Latn', 'Cyrl', 'Hani', g.attr_string()])
-        g.form_children(f, lmfver)
+        if children:
+            g.form_children(f, lmfver)
         return f
 
     def new_sense(synset_targets):
@@ -360,7 +361,9 @@ def gen_lexicon(rng, lmfver, lexid, lexver, profile=None, base=None, language=No
                     if len(xf) > 2:
                         forms.append(xf)
             for _ in range(r.choice([0, 0, 1, 2])):
-                f = new_form()
+                # a new form on an external entry: outside the documented patterns when it carries
+                # tags/pronunciations (the library cannot address it), so it gets none
+                f = new_form(children=False)
                 key = (f['writtenForm'], f.get('script'))
                 if key in seen:
                     continue
